@@ -61,6 +61,7 @@ def verify_module(path, repo, timeout_ms=20000, workers=16, only=None, verbose=F
     report["stats"] = eng.stats
     report["dead_calls"] = sorted(set(eng.dead_calls))
     report["idioms"] = {k: sorted(v) for k, v in eng.idioms.items()}
+    report["loops"] = eng.loops_seen
     report["time"] = time.time() - t0
     return report
 
